@@ -6,6 +6,7 @@ import (
 
 	"github.com/hydraide/hydraide/app/core/hydra/swamp/treasure"
 	"github.com/hydraide/hydraide/app/core/hydra/swamp/treasure/msgpackpatch"
+	"github.com/hydraide/hydraide/app/verifhook"
 )
 
 // PatchExpired atomically selects up to howMany expired treasures from
@@ -60,6 +61,7 @@ func (s *swamp) PatchExpired(howMany int32, ops []msgpackpatch.Op, condition *ms
 	if len(selected) == 0 {
 		return nil, capReached, nil
 	}
+	verifhook.Point("swamp.patchExpired.afterSelect")
 
 	// Mirror the same removal on the DESC beacon to keep both indexes
 	// consistent. Use Delete-by-key (idempotent if not present).
